@@ -25,7 +25,7 @@ for i, m in enumerate(muts):
             r = subprocess.run(["go", "test", "-vet=off", "-count=1", "-timeout", "25m", "./..."], cwd=S, env=env, capture_output=True, text=True)
             suite_ok = r.returncode == 0
         t = time.time()
-        r = subprocess.run([f"{V}/bin/vcheck", m["property"], "--tier", m.get("tier", "quick")], cwd=V, env=dict(env, VERIF_REPO=S, VERIF_DIR=V, VERIF_NOEVIDENCE="1", VERIF_STALL_S=os.environ.get("VERIF_STALL_S","30")), capture_output=True, text=True, timeout=3000)
+        r = subprocess.run([f"{V}/bin/vcheck", m["property"], "--tier", m.get("tier", "quick")], cwd=V, env=dict(env, VERIF_REPO=S, VERIF_DIR=V, VERIF_NOEVIDENCE="1", VERIF_EPHEMERAL="1", VERIF_STALL_S=os.environ.get("VERIF_STALL_S","30")), capture_output=True, text=True, timeout=3000)
         sigs = [l.strip() for l in r.stdout.splitlines() if l.strip().startswith("sig=")]
         caught = r.returncode == 1 and "VIOLATION property=" + m["property"] in r.stdout
         print(f"{'CAUGHT' if caught else 'MISSED'} {m['property']} {m['name']} exit={r.returncode} suite={'n/a' if suite_ok is None else ('pass' if suite_ok else 'FAIL')} {time.time()-t:.0f}s {sigs[:2]}")
